@@ -16,6 +16,7 @@ import (
 	"bytes"
 	"context"
 	"database/sql"
+	"encoding/binary"
 	"errors"
 	"fmt"
 	"net"
@@ -26,9 +27,11 @@ import (
 	"testing"
 	"time"
 
+	"github.com/hashicorp/raft"
 	"github.com/rqlite/rqlite/v10/command/proto"
 	"github.com/rqlite/rqlite/v10/internal/verif/vsql"
 	"github.com/rqlite/rqlite/v10/internal/verif/vstat"
+	"github.com/rqlite/rqlite/v10/snapshot"
 	"pgregory.net/rapid"
 )
 
@@ -118,6 +121,21 @@ func c06SListDir(dir string) []string {
 func TestVerif_C06_Store(t *testing.T) {
 	rec := vstat.New(t, "C06", "store",
 		"single-node store; schedules of up to 10 (thorough 16) steps: write transaction through Store.Execute, start/stop reader (independent read-only connection with BEGIN+SELECT, or ForceStall query), incremental snapshot attempt = Store.fsmSnapshot() with the harness consuming the WAL staging directory like the snapshot sink. Every schedule ends with all readers stopped and a final attempt. Non-trivial = a failed attempt (checkpoint busy) or one that left the WAL in place, followed by write(s) and a later successful attempt. Distinct = operation sequence with outcomes.")
+	c06StoreCheck(t, rec, false)
+}
+
+// TestVerif_C06_StoreRaft drives the same schedules through the whole snapshot
+// path: every attempt is Store.Snapshot(0) (raft -> fsmSnapshot -> Persist into
+// the snapshot store, reaper running). After a successful attempt the newest
+// snapshot is opened from the snapshot store and restored with snapshot.Restore
+// into a scratch file, which must equal the live database.
+func TestVerif_C06_StoreRaft(t *testing.T) {
+	rec := vstat.New(t, "C06", "storeraft",
+		"single-node store; same schedules as the store unit, every attempt is Store.Snapshot(0) through raft and the real snapshot store; after each successful attempt the newest snapshot is restored (snapshot.Restore) and compared with the live database; after a failed attempt the WAL staging directory must be unchanged. Non-trivial and distinct as in the store unit.")
+	c06StoreCheck(t, rec, true)
+}
+
+func c06StoreCheck(t *testing.T, rec *vstat.Rec, viaRaft bool) {
 	maxSteps := vstat.Scale(10, 16)
 	root := t.TempDir()
 	caseNo := 0
@@ -219,14 +237,37 @@ func TestVerif_C06_Store(t *testing.T) {
 			violation = func() { rt.Fatalf("%s", rec.Violation(sig, "%s", msg)) }
 		}
 
+		prevPartial := false
+		var prevSalt [2]uint32
+		readSalt := func() (salt [2]uint32, size int64) {
+			b, err := os.ReadFile(s.walPath)
+			if err != nil || len(b) < 32 {
+				return salt, int64(len(b))
+			}
+			return [2]uint32{binary.BigEndian.Uint32(b[16:]), binary.BigEndian.Uint32(b[20:])}, int64(len(b))
+		}
+		restoreNo := 0
 		attempt := func() {
 			before := c06SListDir(s.walStagingDir)
-			fs, err := s.fsmSnapshot()
+			saltNow, walSzBefore := readSalt()
+			resetSincePartial := prevPartial && walSzBefore >= 32 && saltNow != prevSalt
+			resumed := prevPartial && walSzBefore >= 32 && saltNow == prevSalt
+			var fs raft.FSMSnapshot
+			var err error
+			nFullBefore := s.numFullSnapshots
+			if viaRaft {
+				err = s.Snapshot(0)
+			} else {
+				fs, err = s.fsmSnapshot()
+			}
 			after := c06SListDir(s.walStagingDir)
 			if err != nil {
-				if err == ErrNoWALToSnapshot {
+				if err == ErrNoWALToSnapshot || err == ErrNothingNewToSnapshot {
 					note("snap:nowal")
-					rec.Label("attempt:no-wal")
+					rec.Label("attempt:no-wal-or-nothing-new")
+					if strings.Join(before, ",") != strings.Join(after, ",") {
+						fail("C06/failed-attempt-left-segment", "snapshot attempt returned %v but the WAL staging directory changed: before %v after %v", err, before, after)
+					}
 					return
 				}
 				atts = append(atts, att{failed: true, writes: writes})
@@ -247,6 +288,98 @@ func TestVerif_C06_Store(t *testing.T) {
 				}
 				return
 			}
+			if resetSincePartial {
+				rec.Label("attempt:ok-after-wal-reset")
+			}
+			if resumed {
+				rec.Label("attempt:ok-after-resume")
+			}
+			if viaRaft {
+				_, walSz := readSalt()
+				a := att{kept: true, partial: walSz > 0, writes: writes}
+				atts = append(atts, a)
+				prevPartial, prevSalt = a.partial, saltNow
+				full := s.numFullSnapshots != nFullBefore
+				switch {
+				case full:
+					note("snap:full")
+					rec.Label("attempt:full")
+				case a.partial:
+					note("snap:partial")
+					rec.Label("attempt:kept(all-moved,not-truncated)")
+				default:
+					note("snap:ok")
+					rec.Label("attempt:kept(truncated)")
+				}
+				// the snapshot store is locked while the reaper runs ("MSRW conflict"):
+				// retry with a generous deadline; expiry is inconclusive, not a violation
+				restoreNo++
+				dst := filepath.Join(dir, fmt.Sprintf("restored-%d.db", restoreNo))
+				deadline := time.Now().Add(15 * time.Second)
+				var lastErr error
+				var snapID string
+				for {
+					lastErr = func() error {
+						metas, err := s.snapshotStore.List()
+						if err != nil {
+							return err
+						}
+						if len(metas) == 0 {
+							return fmt.Errorf("snapshot store lists nothing")
+						}
+						snapID = metas[0].ID
+						_, rc, err := s.snapshotStore.Open(snapID)
+						if err != nil {
+							return err
+						}
+						defer rc.Close()
+						for _, sfx := range []string{"", "-wal", "-shm"} {
+							os.Remove(dst + sfx)
+						}
+						_, err = snapshot.Restore(rc, dst)
+						return err
+					}()
+					if lastErr == nil || time.Now().After(deadline) {
+						break
+					}
+					time.Sleep(20 * time.Millisecond)
+				}
+				if lastErr != nil {
+					if strings.Contains(lastErr.Error(), "conflict") {
+						rec.Label("skip:snapshot-store-locked")
+						return
+					}
+					fail("C06/snapshot-unrestorable", "cannot restore newest snapshot %s after a successful Snapshot(0): %v", snapID, lastErr)
+					return
+				}
+				rd, err := c06SDump(dst)
+				if err != nil {
+					fail("C06/restored-unreadable", "restored snapshot unreadable: %v", err)
+					return
+				}
+				ld, err := c06SDump(s.dbPath, "mode=ro")
+				if err != nil {
+					rec.Label("skip:live-dump")
+					return
+				}
+				if rd != ld {
+					fail("C06/storeraft-restored-diverges", "database restored from the newest snapshot differs from the live database after a successful snapshot (%d vs %d bytes of dump; full=%v)", len(rd), len(ld), full)
+					return
+				}
+				rb, e1 := os.ReadFile(dst)
+				lb, e2 := os.ReadFile(s.dbPath)
+				if e1 == nil && e2 == nil {
+					if bytes.Equal(rb, lb) {
+						rec.Label("success:file-bytes-equal")
+					} else {
+						rec.Label("success:file-bytes-differ(logical-equal)")
+					}
+				}
+				for _, sfx := range []string{"", "-wal", "-shm"} {
+					os.Remove(dst + sfx)
+				}
+				return
+			}
 			snap, ok := fs.(*FSMSnapshot)
 			if !ok {
 				fs.Release()
@@ -264,6 +397,7 @@ func TestVerif_C06_Store(t *testing.T) {
 				}
 				os.RemoveAll(s.walStagingDir)
 				atts = append(atts, att{kept: true, writes: writes})
+				prevPartial = false
 				return
 			}
 			// consume the staging directory like the sink
@@ -299,6 +433,7 @@ func TestVerif_C06_Store(t *testing.T) {
 			}
 			a := att{kept: true, partial: walSz > 0, writes: writes}
 			atts = append(atts, a)
+			prevPartial, prevSalt = a.partial, saltNow
 			if a.partial {
 				note("snap:partial")
 				rec.Label("attempt:kept(all-moved,not-truncated)")
@@ -331,6 +466,15 @@ func TestVerif_C06_Store(t *testing.T) {
 		for step := 0; step < nSteps && violation == nil; step++ {
 			op := rapid.SampledFrom([]string{"write", "write", "write", "write", "write", "start", "start", "stop", "stopall", "snap", "snap", "snap", "start+snap", "start+snap"}).Draw(rt, "op")
 			doSnap := false
+			if prevPartial && rapid.SampledFrom([]bool{true, false, false}).Draw(rt, "release-and-write") {
+				// WAL left in place: with every reader gone the next write restarts it
+				for id, r := range readers {
+					r.stop()
+					delete(readers, id)
+				}
+				note("stopall")
+				op = "write"
+			}
 			if op == "start+snap" {
 				op, doSnap = "start", true
 			}
